@@ -328,7 +328,7 @@ impl LunarMonth {
 
   pub fn from_ym(year: isize, month: isize) -> Self {
     let instance: Self;
-    let key: String = format!("{}{}", year, month);
+    let key: String = format!("{}_{}", year, month);
     let mut map: MutexGuard<HashMap<String, Vec<f64>>> = LUNAR_MONTH_CACHE.lock().unwrap();
     let vec: Option<&Vec<f64>> = map.get(&key);
     match vec {
